@@ -105,7 +105,7 @@ def fill(rng, total, first=None, maxw=12):
     return out
 
 
-def tight_lengths(rng, avail, nlines, lastlen, first_extra=0):
+def tight_lengths(rng, avail, nlines, lastlen, first_extra=0, maxw=12):
     """Word lengths that wrap greedily at `avail` into nlines lines such that (a) every line but the last
     ends s columns short of avail and the next line starts with a word of exactly s characters (one column
     too many to be pulled up) and (b) the last line is exactly lastlen long. The first word is first_extra
@@ -128,7 +128,7 @@ def tight_lengths(rng, avail, nlines, lastlen, first_extra=0):
             if target < 1 or (first is not None and first > target):
                 ok = False
                 break
-            part = fill(rng, target, first)
+            part = fill(rng, target, first, maxw=maxw)
             if part is None:
                 ok = False
                 break
@@ -276,8 +276,9 @@ class DocGen:
 
     # -- blocks designed around a given width -----------------------------------------------------
     def cell(self, width):
-        """words whose text (single blanks) is exactly `width` characters long"""
-        return self.words(fill(self.rng, width, maxw=14), plain=True)
+        """words whose text (single blanks) is exactly `width` characters long (wide cells: longer words, so that
+        the number of words to judge stays small)"""
+        return self.words(fill(self.rng, width, maxw=max(14, width // 3)), plain=True)
 
     def table_design(self, T, wrap=False):
         """#TABLE whose unwrapped rendering in ASM mode is exactly T characters wide (columns + 3 per column + 1);
@@ -307,7 +308,8 @@ class DocGen:
         rng = self.rng
         items = []
         for _ in range(rng.randint(1, 3)):
-            lens = tight_lengths(rng, avail - 2, rng.randint(1, 3), max(1, avail - 2 - delta)) or self.rand_lens(1, 12)
+            lens = (tight_lengths(rng, avail - 2, rng.randint(1, 2), max(1, avail - 2 - delta), maxw=max(12, avail // 5))
+                    or self.rand_lens(1, 12))
             items.append(self.words(lens, plain=True))
         return ('l', rng.choice(['', '', 'nowrap', 'wrapalign']), items)
 
@@ -317,11 +319,12 @@ class DocGen:
         rng = self.rng
         chunks = []
         if pos in ('after', 'between'):
-            lens = tight_lengths(rng, avail, rng.randint(1, 2), max(1, avail - delta)) or self.rand_lens(1, 8)
+            lens = tight_lengths(rng, avail, rng.randint(1, 2), max(1, avail - delta), maxw=max(12, avail // 5)) or self.rand_lens(1, 8)
             chunks.append(('t', self.words(lens, plain=True)))
         chunks.append(block)
         if pos in ('before', 'between'):
-            lens = tight_lengths(rng, avail, rng.randint(1, 2), max(2, avail - delta), first_extra=1) or self.rand_lens(1, 8)
+            lens = (tight_lengths(rng, avail, rng.randint(1, 2), max(2, avail - delta), first_extra=1, maxw=max(12, avail // 5))
+                    or self.rand_lens(1, 8))
             chunks.append(('t', self.words(lens, plain=True)))
         return chunks
 
